@@ -133,17 +133,19 @@ def run(scenario, tape_values):
         for pr in sc.get("template_probes", []):
             msg = pr.get("message")
             ok = template_ok(msg)
-            try:
-                Logger(RecPool(world, "probe"), name="verif.c16.probe", message=msg, level=pr.get("level", 20)) if msg is not None else Logger(RecPool(world, "probe"))
-                raised = None
-            except RuntimeError as err:
-                raised = "RuntimeError"
-            except Exception as err:
-                raised = type(err).__name__
-            if ok and raised:
-                V("C16/template-wrongly-rejected", "template %r only names documented fields but constructing the Logger raised %s" % (msg, raised))
-            if not ok and raised is None:
-                V("C16/template-not-rejected", "template %r names an unknown field but the Logger was constructed" % (msg,))
+            # every construction is judged, not only the first one with a given template in this process
+            for attempt in (1, 2):
+                try:
+                    Logger(RecPool(world, "probe"), name="verif.c16.probe", message=msg, level=pr.get("level", 20)) if msg is not None else Logger(RecPool(world, "probe"))
+                    raised = None
+                except RuntimeError:
+                    raised = "RuntimeError"
+                except Exception as err:
+                    raised = type(err).__name__
+                if ok and raised:
+                    V("C16/template-wrongly-rejected", "template %r only names documented fields but constructing the Logger raised %s (construction %d with this template)" % (msg, raised, attempt))
+                if not ok and raised is None:
+                    V("C16/template-not-rejected", "template %r names an unknown field but the Logger was constructed (construction %d with this template in this world)" % (msg, attempt))
 
     kinds = [e["k"] for e in stack]
     transparent_all = all(k in ("plain", "logger") for k in kinds)
